@@ -1,2 +1,239 @@
+"""Kani back end: run harnesses that are compiled into the real crates under cfg(kani).
+
+A group (units/registry.py KANI) names harnesses of one crate.  Verdict per harness:
+  discharged    VERIFICATION:- SUCCESSFUL and every kani::cover! SATISFIED (reachability guard)
+  failed        a check other than an unwinding assertion / unsupported construct fails
+  inconclusive  timeout, out of memory, unwinding assertion, unsupported construct, unreachable cover
+A failed harness is re-run with --concrete-playback=print; the generated unit test is written to
+.build/playback/<module>.inc (included by the harness module under cfg(test)) and executed against
+the real crate with `cargo kani playback`.
+"""
+import glob
+import os
+import re
+import subprocess
+import time
+
+ROOT = os.path.dirname(os.path.dirname(os.path.abspath(__file__)))
+REPO = os.environ.get("VERIF_REPO", "/repo")
+BUILD = os.path.join(ROOT, ".build")
+PLAYBACK = os.path.join(BUILD, "playback")
+CRATE_DIR = {"nomt": "nomt", "nomt-core": "core"}
+JOBS = int(os.environ.get("VERIF_KANI_JOBS", "8"))
+
+INCONCLUSIVE_CHECK = [r"unwinding assertion", r"not currently supported by Kani", r"is not supported", r"unsupported",
+                      r"recursion unwinding", r"Kani does not support", r"reachability check"]
+
+
+def ensure_playback_files():
+    os.makedirs(PLAYBACK, exist_ok=True)
+    for f in glob.glob(os.path.join(ROOT, "units", "kani", "*.rs")):
+        inc = os.path.join(PLAYBACK, os.path.basename(f)[:-3] + ".inc")
+        if not os.path.exists(inc):
+            open(inc, "w").write("")
+
+
+def target_dir():
+    if os.path.realpath(REPO) == "/repo":
+        return os.path.join(BUILD, "kani")
+    return os.path.join(BUILD, "kani-scratch")
+
+
+def _env():
+    e = dict(os.environ)
+    e["CARGO_NET_OFFLINE"] = "true"
+    e["CARGO_TARGET_DIR"] = target_dir()
+    return e
+
+
+def _run(cmd, cwd, timeout):
+    t0 = time.time()
+    try:
+        p = subprocess.run(cmd, cwd=cwd, env=_env(), stdout=subprocess.PIPE, stderr=subprocess.STDOUT, text=True,
+                           errors="replace", timeout=timeout)
+        return p.returncode, p.stdout, time.time() - t0, False
+    except subprocess.TimeoutExpired as ex:
+        out = ex.stdout.decode(errors="replace") if isinstance(ex.stdout, bytes) else (ex.stdout or "")
+        # make sure no cbmc is left behind
+        subprocess.run("pkill -f 'cbmc .*%s' || true" % re.escape(target_dir()), shell=True)
+        return -9, out, time.time() - t0, True
+
+
+def hname(h):
+    return h if isinstance(h, str) else h["name"]
+
+
+def parse_blocks(out):
+    """{harness_full_name: block_text}.  With -j, lines are `Thread k: ...`; the unprefixed lines that
+    follow belong to the same thread's current harness."""
+    blocks = {}
+    cur_thread = None
+    cur_harness = {}  # thread -> harness
+    for ln in out.split("\n"):
+        m = re.match(r"^Thread (\d+): (.*)$", ln)
+        if m:
+            cur_thread = m.group(1)
+            ln = m.group(2)
+        mh = re.match(r"^Checking harness (\S+?)\.\.\.\s*$", ln)
+        if mh:
+            cur_harness[cur_thread] = mh.group(1)
+            blocks.setdefault(mh.group(1), "")
+            continue
+        h = cur_harness.get(cur_thread)
+        if h is not None:
+            blocks[h] += ln + "\n"
+    return blocks
+
+
+def classify(block):
+    """-> (verdict, detail, failed_checks[], stats)"""
+    stats = {}
+    m = re.search(r"\*\* (\d+) of (\d+) failed", block)
+    if m:
+        stats["checks_failed"], stats["checks"] = int(m.group(1)), int(m.group(2))
+    mc = re.search(r"\*\* (\d+) of (\d+) cover properties satisfied", block)
+    if mc:
+        stats["covers_sat"], stats["covers"] = int(mc.group(1)), int(mc.group(2))
+    mt = re.search(r"Verification Time: ([0-9.]+)s", block)
+    if mt:
+        stats["seconds"] = float(mt.group(1))
+    failed = []
+    for fm in re.finditer(r"Failed Checks: (.*)\n\s*File: \"([^\"]*)\", line (\d+), in (\S+)", block):
+        failed.append({"desc": fm.group(1).strip(), "file": fm.group(2), "line": int(fm.group(3)), "func": fm.group(4)})
+    if "VERIFICATION:- SUCCESSFUL" in block:
+        if mc and int(mc.group(1)) < int(mc.group(2)):
+            return "inconclusive", "a kani::cover! is unreachable (harness precondition too strong: vacuity guard)", failed, stats
+        if not mc:
+            return "inconclusive", "harness has no cover property (vacuity guard missing)", failed, stats
+        return "discharged", "", failed, stats
+    if "VERIFICATION:- FAILED" in block:
+        real = [f for f in failed if not any(re.search(p, f["desc"]) for p in INCONCLUSIVE_CHECK)]
+        if not failed:
+            # failed without listed checks (e.g. only unsupported constructs reachable)
+            return "inconclusive", "verification failed without a listed failed check", failed, stats
+        if not real:
+            return "inconclusive", "only unwinding/unsupported-construct checks failed: %s" % [f["desc"][:80] for f in failed[:3]], failed, stats
+        # a failing unwinding assertion together with other failures: the others may be artefacts
+        if len(real) < len(failed) and any(re.search(r"unwinding assertion", f["desc"]) for f in failed):
+            return "inconclusive", "unwinding assertion failed together with %d other checks" % len(real), failed, stats
+        return "failed", "", real, stats
+    if re.search(r"CBMC timed out|timed out|Timeout", block):
+        return "inconclusive", "harness timed out", failed, stats
+    if re.search(r"out of memory|memory exhausted|Killed|SIGKILL", block):
+        return "inconclusive", "CBMC ran out of memory", failed, stats
+    return "inconclusive", "no verdict in Kani output", failed, stats
+
+
+def kani_cmd(crate, harnesses, flags, unwindset, harness_timeout, jobs, playback=False):
+    cmd = ["cargo", "kani", "-Z", "function-contracts", "-Z", "stubbing", "-Z", "unstable-options",
+           "--output-format", "terse", "--exact"]
+    if playback:
+        cmd += ["-Z", "concrete-playback", "--concrete-playback=print"]
+    else:
+        cmd += ["-j", str(jobs)]
+    if harness_timeout:
+        cmd += ["--harness-timeout", "%ds" % harness_timeout]
+    cmd += list(flags)
+    for h in harnesses:
+        cmd += ["--harness", h]
+    if unwindset:
+        cmd += ["--cbmc-args", "--unwindset", ",".join(unwindset)]
+    return cmd
+
+
+def do_playback(crate, full_name, module_file, flags, unwindset, harness_timeout):
+    """-> (counterexample_text, replayed_bool, log)"""
+    cwd = os.path.join(REPO, CRATE_DIR[crate])
+    cmd = kani_cmd(crate, [full_name], flags, unwindset, harness_timeout, 1, playback=True)
+    rc, out, secs, to = _run(cmd, cwd, (harness_timeout or 600) + 600)
+    tests = re.findall(r"```\n(.*?)```", out, re.S)
+    if not tests:
+        return None, False, "no concrete playback test was produced\n" + out[-1500:]
+    inc = os.path.join(PLAYBACK, os.path.basename(module_file)[:-3] + ".inc")
+    # keep the first test per distinct check
+    test = tests[0]
+    tname = re.search(r"fn (kani_concrete_playback_\w+)", test).group(1)
+    open(inc, "w").write(test)
+    try:
+        rc2, out2, secs2, to2 = _run(["cargo", "kani", "playback", "-Z", "concrete-playback", "--", tname], cwd, 1800)
+    finally:
+        open(inc, "w").write("")
+    replayed = ("test result: FAILED" in out2) and (tname in out2)
+    return test, replayed, out2[-3000:]
+
+
 def run_groups(groups, tier, pid):
-    return []
+    """groups: [(name, spec)] -> list of unit results (same shape as core.run_verus_unit)."""
+    ensure_playback_files()
+    results = {}
+    # split by (crate, flags, unwindset) so one cargo kani invocation serves many harnesses
+    batches = {}
+    for (g, spec) in groups:
+        key = (spec["crate"], tuple(spec.get("flags", [])), tuple(spec.get("unwindset", [])))
+        batches.setdefault(key, []).append((g, spec))
+        results[g] = {"unit": g, "backend": "kani", "status": "ok", "reason": "", "functions": [], "obligations": [],
+                      "trusted": list(spec.get("trusted", [])), "failures": [], "checker_cmd": "", "wall_s": 0.0,
+                      "solver_s": 0.0}
+        for (f, item) in spec.get("functions", []):
+            results[g]["functions"].append({"file": f, "item": item, "role": "harnessed (real code, compiled by cargo kani)"})
+    for (crate, flags, unwindset), members in batches.items():
+        cwd = os.path.join(REPO, CRATE_DIR[crate])
+        names = []
+        tmo = 0
+        for (g, spec) in members:
+            for h in spec["harnesses"]:
+                if isinstance(h, dict) and h.get("tier") == "thorough" and tier != "thorough":
+                    continue
+                names.append(spec["module"] + "::" + hname(h))
+            tmo = max(tmo, spec.get("harness_timeout", 600))
+        if not names:
+            continue
+        cmd = kani_cmd(crate, names, flags, unwindset, tmo, min(JOBS, len(names)))
+        waves = (len(names) + JOBS - 1) // JOBS
+        rc, out, secs, timed_out = _run(cmd, cwd, 900 + tmo * waves + 120)
+        blocks = parse_blocks(out)
+        compile_failed = ("error: could not compile" in out or "error[E" in out) and not blocks
+        for (g, spec) in members:
+            r = results[g]
+            r["checker_cmd"] = "(cd %s && CARGO_NET_OFFLINE=true CARGO_TARGET_DIR=%s %s)" % (cwd, target_dir(), " ".join(cmd))
+            r["wall_s"] = secs
+            reasons = []
+            for h in spec["harnesses"]:
+                if isinstance(h, dict) and h.get("tier") == "thorough" and tier != "thorough":
+                    continue
+                short = hname(h)
+                full = spec["module"] + "::" + short
+                hb = h if isinstance(h, dict) else {}
+                complete = hb.get("complete", spec.get("complete", False))
+                bound = hb.get("bound", spec.get("bound"))
+                ob = {"name": "kani:%s:%s" % (g, short), "backend": "kani/cbmc", "complete": bool(complete), "bound": bound,
+                      "function": hb.get("about", spec.get("about", "")), "contract": hb.get("contract", "")}
+                if compile_failed:
+                    ob["verdict"] = "inconclusive"
+                    reasons.append("crate does not compile under cargo kani (code changed shape under the harness): %s" % " ".join(re.findall(r"error(?:\[E\d+\])?: .*", out)[:3]))
+                elif full not in blocks:
+                    ob["verdict"] = "inconclusive"
+                    reasons.append("%s: no result (timeout=%s rc=%s)" % (short, timed_out, rc))
+                else:
+                    verdict, detail, failed, stats = classify(blocks[full])
+                    ob["verdict"] = verdict
+                    ob.update(stats)
+                    r["solver_s"] += stats.get("seconds", 0.0)
+                    if verdict == "inconclusive":
+                        reasons.append("%s: %s" % (short, detail))
+                    elif verdict == "failed":
+                        desc = "; ".join("%s @ %s:%d (%s)" % (f["desc"], os.path.relpath(f["file"], REPO) if f["file"].startswith(REPO) else f["file"], f["line"], f["func"]) for f in failed[:6])
+                        sig = "harness %s: %s" % (short, desc)
+                        ce, replayed, plog = do_playback(crate, full, spec["module_file"], flags, unwindset, tmo)
+                        r["failures"].append({"item": short, "file": spec["module_file"], "message": "Kani check failed", "sig": sig,
+                                              "rendered": blocks[full][-3000:], "counterexample": ce, "replayed": replayed,
+                                              "replay_result": ("counterexample replayed on the real crate (cargo kani playback): test fails" if replayed else "counterexample did not reproduce natively / none produced") + "\n" + plog[-1500:],
+                                              "failed_checks": failed})
+                r["obligations"].append(ob)
+            if r["failures"]:
+                r["status"] = "failed"
+            if reasons:
+                r["reason"] = "; ".join(reasons)
+                if not r["failures"]:
+                    r["status"] = "inconclusive"
+    return [results[g] for (g, _) in groups]
